@@ -12,6 +12,7 @@ package zzsimrt
 import (
 	"reflect"
 	"runtime"
+	"sync/atomic"
 	"syscall"
 	"unsafe"
 )
@@ -445,7 +446,22 @@ type SimTimer struct {
 	fire    func() // runs on the scheduler's side when the clock reaches at
 	stopped bool
 	fired   bool
+	hb      uint32 // carries the happens-before edges a real timer has: creation -> firing -> whoever waited for it
 }
+
+// timerPublish and timerObserve are deliberately visible to the race
+// detector (a real timer's creation happens before its firing, and its firing
+// before the wake-up of whoever waited for it); everything else about the
+// simulated clock is invisible to it.
+//
+//go:noinline
+func timerPublish(t *SimTimer) { atomic.AddUint32(&t.hb, 1) }
+
+//go:noinline
+func timerObserve(t *SimTimer) { atomic.LoadUint32(&t.hb) }
+
+//go:norace
+func timerFired(t *SimTimer) bool { return t.fired }
 
 var (
 	simNow    int64 // simulated nanoseconds since the start of the process
@@ -472,6 +488,7 @@ func AddTimer(d int64, fire func()) *SimTimer {
 	simSeq++
 	t := &SimTimer{at: simNow + d, seq: simSeq, fire: fire}
 	simTimers = append(simTimers, t)
+	timerPublish(t)
 	return t
 }
 
@@ -528,10 +545,12 @@ func AdvanceClock() bool {
 		simNow = t.at
 		simJumps++
 	}
-	t.fired = true
+	timerObserve(t)
 	if t.fire != nil {
 		t.fire()
 	}
+	timerPublish(t)
+	t.fired = true
 	return true
 }
 
@@ -544,13 +563,10 @@ func SleepSim(d int64) {
 	if !baton {
 		return // nobody to advance the clock: a sleep is a no-op outside the simulation
 	}
-	woke := false
-	AddTimer(d, func() { woke = true })
+	t := AddTimer(d, nil)
 	SyncPoint()
-	for !wokeLoad(&woke) {
+	for !timerFired(t) {
 		Blocked()
 	}
+	timerObserve(t)
 }
-
-//go:norace
-func wokeLoad(p *bool) bool { return *p }
